@@ -269,7 +269,10 @@ def require_all(
             which chain composition propagates rather than swallowing.
         inner: The credential that establishes caller identity. When ``None``
             the gate alone authenticates — "only my proxy may call this
-            worker", with user identity handled upstream.
+            worker", with user identity handled upstream. A request the gate
+            passed without verifying (claims ``verified == "false"``, as in
+            the proxy-proof ``allow`` mode) is not authenticated by anything
+            and gets an anonymous context.
 
     Returns:
         A callback ``(falcon.Request) -> AuthContext`` suitable for
@@ -282,6 +285,17 @@ def require_all(
     def authenticate(req: falcon.Request) -> AuthContext:
         claims = gate(req)
         if inner is None:
+            # A gate may let a request through *without* having verified it —
+            # the proxy-proof gate in ``allow`` mode records the failure and
+            # never denies. Nothing has authenticated such a request, so it
+            # proceeds as an anonymous one; the gate's claims are still
+            # attached so the reason stays visible to logs and attribution.
+            if claims.get("verified") == "false":
+                return AuthContext(
+                    domain=None,
+                    authenticated=False,
+                    claims={gate.claims_key: claims},
+                )
             return AuthContext(
                 domain=gate.name,
                 authenticated=True,
